@@ -56,6 +56,8 @@ type c13Machine struct {
 	addsAfterOp bool
 	exts        []string
 	massive     bool         // From-Root output and walk steps run with WithMassive
+	keptErrs    []c13KeptErr  // errors returned by earlier, independent From-Markdown calls: their text must not change afterwards
+	optArr      []gtree.Option // the caller's option array [WithTargetDir("."), WithEncodeJSON()] with spare capacity: iterator walks get its first element, JSON steps all of it
 	massiveOpt  gtree.Option // ONE WithMassive option value, made once and handed to every massive call of the machine (as a caller who builds an option slice once does)
 }
 
@@ -70,6 +72,19 @@ func (m *c13Machine) sharedOpts(base []gtree.Option) []gtree.Option {
 }
 
 var errC13Callback = errors.New("verif: c13 callback failure")
+
+type c13KeptErr struct {
+	err  error
+	text string
+	doc  string
+}
+
+func (m *c13Machine) optionArray() []gtree.Option {
+	if m.optArr == nil {
+		m.optArr = append(make([]gtree.Option, 0, 6), gtree.WithTargetDir("."), gtree.WithEncodeJSON())
+	}
+	return m.optArr
+}
 
 type c13History struct {
 	Steps   []c13Step `json:"steps"`
@@ -100,6 +115,8 @@ func histString(steps []c13Step) string {
 			parts = append(parts, fmt.Sprintf("t%d.n%d.Add(%q)", s.Tree, s.Node, s.Name))
 		case "markdown":
 			parts = append(parts, fmt.Sprintf("OutputFromMarkdown(%q)", s.Doc))
+		case "mdfail":
+			parts = append(parts, fmt.Sprintf("err%d := OutputFromMarkdown(%q)", len(parts), s.Doc))
 		default:
 			parts = append(parts, fmt.Sprintf("%s(t%d)", s.Kind, s.Tree))
 		}
@@ -120,6 +137,18 @@ func (m *c13Machine) extList() []string {
 
 // exec performs one step on the real trees and on the model and compares; "" means the invariant holds.
 func (m *c13Machine) exec(s c13Step) string {
+	msg := m.exec1(s)
+	if msg == "" {
+		for _, k := range m.keptErrs {
+			if got := k.err.Error(); got != k.text {
+				return fmt.Sprintf("the error an earlier, independent OutputFromMarkdown(%q) returned read %q then and reads %q now", k.doc, k.text, got)
+			}
+		}
+	}
+	return msg
+}
+
+func (m *c13Machine) exec1(s c13Step) string {
 	m.hist = append(m.hist, s)
 	if s.Kind == "repeat" {
 		if m.last == nil {
@@ -182,6 +211,14 @@ func (m *c13Machine) run(s c13Step) string {
 		// an option-less VerifyFromMarkdown in between (it only reads the current directory); whatever it returns
 		gtree.VerifyFromMarkdown(strings.NewReader(s.Doc))
 		return ""
+	case "mdfail":
+		// an independent From-Markdown call that fails on a malformed row; the caller keeps the error value
+		err := gtree.OutputFromMarkdown(io.Discard, strings.NewReader(s.Doc))
+		if err == nil {
+			return fmt.Sprintf("OutputFromMarkdown(%q) returned nil for a malformed document", s.Doc)
+		}
+		m.keptErrs = append(m.keptErrs, c13KeptErr{err: err, text: err.Error(), doc: s.Doc})
+		return ""
 	case "markdown":
 		var buf bytes.Buffer
 		if err := gtree.OutputFromMarkdown(&buf, strings.NewReader(s.Doc)); err != nil {
@@ -206,7 +243,11 @@ func (m *c13Machine) run(s c13Step) string {
 	switch s.Kind {
 	case "itercreate":
 		// creating the iterator is not the operation; ranging over it later is
-		t.iters = append(t.iters, c13Iter{seq: gtree.WalkIterFromRoot(root, opt.Options(nil, "")...), branch: s.Branch})
+		iopts := opt.Options(nil, "")
+		if s.Branch == nil {
+			iopts = m.optionArray()[:1] // a prefix of the caller's longer option array (spare capacity behind it)
+		}
+		t.iters = append(t.iters, c13Iter{seq: gtree.WalkIterFromRoot(root, iopts...), branch: s.Branch})
 		m.last = nil
 		return ""
 	case "iterrange":
@@ -295,7 +336,7 @@ func (m *c13Machine) run(s c13Step) string {
 		}
 	case "json":
 		var buf bytes.Buffer
-		if err := gtree.OutputFromRoot(&buf, root, gtree.WithEncodeJSON()); err != nil {
+		if err := gtree.OutputFromRoot(&buf, root, m.optionArray()...); err != nil {
 			return "OutputFromRoot(json): " + err.Error()
 		}
 		m.lastOut = buf.String()
@@ -310,7 +351,11 @@ func (m *c13Machine) run(s c13Step) string {
 				return "WalkFromRoot: " + err.Error()
 			}
 		} else {
-			for wn, err := range gtree.WalkIterFromRoot(root, opt.Options(nil, "")...) {
+			iopts := opt.Options(nil, "")
+			if s.Branch == nil {
+				iopts = m.optionArray()[:1]
+			}
+			for wn, err := range gtree.WalkIterFromRoot(root, iopts...) {
 				if err != nil {
 					return "WalkIterFromRoot: " + err.Error()
 				}
@@ -352,6 +397,36 @@ func (m *c13Machine) run(s c13Step) string {
 		m.lastOut = buf.String()
 		if buf.String() != want {
 			return fmt.Sprintf("dry-run report of tree %s: %s", mroot, firstDiff(buf.String(), want))
+		}
+	case "verifybad", "verifymissing":
+		if !validNames {
+			return ""
+		}
+		target := filepath.Join(m.dir, "t") // the same absolute path as every other verify / mkdir step
+		os.MkdirAll(target, 0o755)
+		defer os.RemoveAll(target)
+		entries := materialize(mf, nil, nil)
+		if s.Kind == "verifymissing" {
+			if len(entries) < 2 {
+				return ""
+			}
+			entries = entries[:len(entries)-1] // the last node path is not there
+		}
+		for _, e := range entries {
+			os.MkdirAll(filepath.Join(target, e.Path), 0o755)
+		}
+		if s.Kind == "verifybad" {
+			// a directory below the root whose name is not valid UTF-8: whatever verify makes of it (an I/O error of its
+			// directory walk, or an extra entry), a strict verify cannot succeed
+			os.MkdirAll(filepath.Join(target, mroot.Name, "x\xff"), 0o755)
+		}
+		err := gtree.VerifyFromRoot(root, gtree.WithTargetDir(target), gtree.WithStrictVerify())
+		m.lastOut = s.Kind + ":" + fmt.Sprint(err != nil)
+		if err == nil && s.Kind == "verifybad" {
+			return fmt.Sprintf("strict VerifyFromRoot of tree %s returned nil although the directory holds an entry that is no node", mroot)
+		}
+		if err == nil && s.Kind == "verifymissing" {
+			return fmt.Sprintf("VerifyFromRoot of tree %s returned nil although the last node path does not exist", mroot)
 		}
 	case "mkdir", "verify":
 		m.seq++
@@ -406,7 +481,7 @@ func (m *c13Machine) classes() (nontrivial bool, cl []string) {
 	return
 }
 
-var c13Kinds = []string{"output", "output", "json", "walk", "walkiter", "drymkdir", "mkdir", "verify", "itercreate", "iterrange", "iterrange", "failwalk"}
+var c13Kinds = []string{"output", "output", "json", "walk", "walkiter", "drymkdir", "mkdir", "verify", "itercreate", "iterrange", "iterrange", "failwalk", "verifybad", "verifymissing"}
 
 // names of the machine: mostly tiny (collisions, merges), sometimes not a path element (legal for output and walk)
 var c13Names = []string{"a", "b", "ab", "ba", "c", "a", "b", "a/b", "..", "x y", "-"}
@@ -453,6 +528,10 @@ func TestC13Machine(t *testing.T) {
 				want, _ := model.Render(model.Merge(f), model.DefaultBranch)
 				// a different notation every time (unit, tabs, heading roots ...): calls must not inherit anything
 				step(c13Step{Kind: "markdown", Doc: model.Spell(f, genSpelling(f.HeadingOK()).Draw(rt, "mdspelling")), Want: want})
+			},
+			"mdfail": func(rt *rapid.T) {
+				m.seq++
+				step(c13Step{Kind: "mdfail", Doc: fmt.Sprintf("- a\n  - b\n%s%d no bullet here\n", rapid.SampledFrom([]string{"", " ", "  "}).Draw(rt, "ind"), m.seq)})
 			},
 			"mdverify": func(rt *rapid.T) {
 				f := genForest(forestParams{maxNodes: 4, maxDepth: 3, names: sampled(poolTiny)}).Draw(rt, "vforest")
@@ -698,7 +777,12 @@ func genC13History(rt *rapid.T, label string, n int) []c13Step {
 			nodes[ti]++ // upper bound; exec ignores out-of-range nodes
 		default:
 			ti := rapid.IntRange(0, len(nodes)-1).Draw(rt, label+"t")
-			steps = append(steps, c13Step{Kind: rapid.SampledFrom([]string{"output", "output", "json", "walk", "walkiter", "failwalk"}).Draw(rt, label+"op"), Tree: ti})
+			kind := rapid.SampledFrom([]string{"output", "output", "json", "walk", "walkiter", "failwalk", "mdfail"}).Draw(rt, label+"op")
+			if kind == "mdfail" {
+				steps = append(steps, c13Step{Kind: kind, Doc: fmt.Sprintf("- a\n %s-%d no bullet\n", label, i)})
+				continue
+			}
+			steps = append(steps, c13Step{Kind: kind, Tree: ti})
 		}
 	}
 	return steps
